@@ -40,6 +40,8 @@ SPEC_MUTANTS = [  # (Mutant, Mode)
     ("ueof_is_eof", "serial"),          # io.ErrUnexpectedEOF counts as the end of the body: rejected by OKOnlyAfterAllLines
     ("gz_double_put", "gz"),            # failed Reset puts the pooled gzip reader back AND the deferred Put runs: PoolHoldsEachObjectOnce
 ]
+# mechanism M_GzipStreamUnbounded off (decompressed stream limited to Content-Length * R, clean EOF at the limit): needs
+# bodies longer than 2 x their compressed size, i.e. the gzone configuration
 
 
 def read_buf_len():
@@ -93,6 +95,19 @@ def build_cases(ctx, exported):
         gz = 1 if rng.random() < 0.4 else 0
         lines.append({"fam": "long", "id": nid, "reqs": c["reqs"], "scale": rng.choice(scales),
                       "unlim": rng.random() < 0.5, "gz": gz, "trunc": bool(gz and rng.random() < 0.4)})
+        nid += 1
+    # ---- compressibility and Content-Length: gzip requests WITH a Content-Length whose highly repetitive body inflates
+    #      about 50 / 99 / 100 / 101 / 150 / 300 / 1000 times (0: as much as it gets), one member and multi-member
+    def repeatable(r):
+        e = r["exp"]
+        return r["end"] in ("with", "after") and r["sizes"] and has_symbol(r) and \
+            (any(e[:-1]) or (r["body"][-1] == 0 and bool(e[-1])))
+    rep_ok = [c["reqs"][0] for c in exported if len(c["reqs"]) == 1 and repeatable(c["reqs"][0])]
+    targets = [50, 99, 100, 101, 150, 300, 1000, 0]
+    for i in range((12 if quick else 120) * len(targets) * 2):
+        lines.append({"fam": "ratio", "id": nid, "reqs": [rng.choice(rep_ok)], "ratio": targets[i % len(targets)],
+                      "gzmode": 2 + (i // len(targets)) % 2, "size": rng.choice([60000, 150000, 300000]),
+                      "scale": rng.choice([1, 7, 40])})
         nid += 1
     # ---- concurrent rounds
     single = [c["reqs"][0] for c in exported if len(c["reqs"]) == 1 and c["reqs"][0]["end"] in ("with", "after")]
@@ -187,7 +202,7 @@ def run(ctx):
     n_exported = len(exported)
     # side runs (concurrent configuration, spec mutants) in ONE background thread while the harness is built and run
     # (the main thread does not use ctx.tlc meanwhile)
-    side = {"killed": [], "conc": None, "gz": None, "exc": None}
+    side = {"killed": [], "conc": None, "gz": None, "gzone": None, "exc": None}
 
     def side_runs():
         try:
@@ -220,6 +235,15 @@ def run(ctx):
             if not shared_reader_in_trace(r.trace):
                 raise vlib.Infra("counterexample of gz_double_put does not show two requests holding one reader:\n%s" % r.out[-3000:])
             side["killed"].append("gz_double_put(gz,observable)->%s[two requests hold the same gzip reader]" % r.violated)
+            # compressed size / Content-Length as a dimension: the whole decompressed body whatever the ratio
+            side["gzone"] = tlc_ok(ctx, "HttpChunk", "HttpChunk_gzone.cfg", timeout=300, deadlock=False, seed=ctx.seed,
+                                   workers=8, overrides={"GzLen": "4" if quick else "5"})
+            r = ctx.tlc("HttpChunk", "HttpChunk_gzone.cfg", timeout=300, deadlock=False, workers=4,
+                        overrides={"Mutant": '"gz_limit_clean_eof"'}, name="spec-mutant/gz_limit_clean_eof")
+            if r.ok or r.kind != "invariant" or r.violated not in ("LinesExact", "OKOnlyAfterAllLines"):
+                raise vlib.Infra("spec mutant gz_limit_clean_eof is not rejected by LinesExact / OKOnlyAfterAllLines (%s/%s)"
+                                 % (r.violated, r.kind))
+            side["killed"].append("gz_limit_clean_eof->%s" % r.violated)
         except BaseException as e:  # re-raised in the main thread
             side["exc"] = e
 
@@ -276,6 +300,10 @@ def evaluate(ctx, r, lines, n_exported, killed, conc):
         if min(st["gzip_payload_cut_inside_header"], st["gzip_payload_cut_inside_deflate_data"], st["gzip_payload_cut_inside_trailer"]) == 0 \
                 or st["requests_ending_with_io_ErrUnexpectedEOF"] == 0:
             raise vlib.Infra("truncated gzip payloads / io.ErrUnexpectedEOF bodies were not exercised in every class")
+        if min(st["ratio_requests_inflating_more_than_300_times"], st["ratio_requests_inflating_at_most_100_times"],
+               st["ratio_requests_multi_member"]) == 0 or \
+                st["ratio_requests_inflating_more_than_100_times"] <= st["ratio_requests_inflating_more_than_300_times"]:
+            raise vlib.Infra("gzip requests with a Content-Length were not exercised at ratios below 100, between 100 and 300 and above")
         if st["gate_pool_handover_probe_hits"] == 0:
             raise vlib.Infra("a sync.Pool Put made inside the blocked In never reached the Get of the request served meanwhile")
 
@@ -304,13 +332,14 @@ def evaluate(ctx, r, lines, n_exported, killed, conc):
     ctx.rule = ("case = 1-2 successive requests, each (body over {a,\\r,\\n} up to the length bound, split of the body "
                 "into reads, end flavour (n,EOF)|(n,nil)+(0,EOF)|(0,err)|(0,ErrUnexpectedEOF)|(n,ErrUnexpectedEOF), optional (0,nil) reads), enumerated exhaustively by "
                 "TLC (%d cases); ALL of them replayed on the real plugin (Start address=off, ServeHTTP) plain, gzip and gzip with the payload cut short (header / deflate data / trailer), plus "
+                "%d gzip requests WITH a Content-Length and a highly repetitive body (ratios 50..1000, up to %d bytes, max ratio %d), "
                 "%d seeded long-line derivations (symbols blown up to runs around the real read-buffer size) and %d seeded "
                 "concurrent rounds (2/4/8 parallel requests over disjoint alphabets, half of them with a rendezvous inside "
                 "Read) and %d blocked-In windows (an In call of request A -- mostly its unterminated last line -- blocks before "
                 "the bytes are copied while request B with a line split over two reads is served; GOMAXPROCS 1 and default; %d of them are gzip sequences: good gzip request, request with a bad gzip header, "
                 "then two overlapping gzip requests, GC off, with a white-box look that the pool holds no *gzip.Reader twice). "
                 "Non-trivial = serial cases in which a line crosses a read boundary (counted by the harness)."
-                % (n_exported, st["long_cases"], st["conc_cases"], st["gate_cases"], st["gzseq_runs"] // 2))
+                % (n_exported, st["ratio_requests_with_content_length"], st["ratio_decompressed_bytes_max"], st["ratio_max"], st["long_cases"], st["conc_cases"], st["gate_cases"], st["gzseq_runs"] // 2))
     for c in lines[:2] + [c for c in lines if c["fam"] == "long"][:1] + [c for c in lines if c["fam"] == "conc"][:1]:
         ctx.sample(c)
     ctx.assumptions += [
@@ -318,7 +347,8 @@ def evaluate(ctx, r, lines, n_exported, killed, conc):
         "lines are split on \\n only (\\r is an ordinary byte); empty lines are events (the pipeline's admission refuses them later)",
         "concurrent requests are attributed to bodies by disjoint alphabets; empty events only by their total number",
         "controller.In may block before it copies the bytes (Pipeline.In waits for a free event first): the slice must stay intact until In returns",
-        "HTTP/1.1 framing (chunked transfer, Content-Length) is net/http's business: the harness starts at ServeHTTP",
+        "HTTP/1.1 framing (chunked transfer, Content-Length) is net/http's business: the harness starts at ServeHTTP (Request.ContentLength and the header are set by hand where a case announces a length)",
+        "the expectation of a blown-up body (symbols -> runs, terminated lines repeated) is the spec's expectation blown up the same way",
     ]
     recs = []
     for m in r["mismatches"] or []:
